@@ -4,6 +4,7 @@ From Coq.Strings Require Import Byte String.
 From Coq Require Import List NArith Bool.
 Import ListNotations.
 From V Require Import lib.Bytes spec.HtmlTok model.Escape model.StyleAttr model.DocFrag.
+From V Require spec.JsLex.
 
 (* attribute-name bytes: no whitespace, no / > = and no quote, < or & .
    (KNOWN LIMITATION, stated as this hypothesis: templ.RenderAttributes escapes spread-attribute KEYS but does
@@ -28,7 +29,7 @@ Definition expected_attr (kv : bytes * aval) : list (bytes * bytes) :=
   end.
 Definition expected_attrs (m : list (bytes * aval)) : list (bytes * bytes) := flat_map expected_attr (sort_kv m).
 
-Definition expected_attr_t (a : attr) : list (bytes * bytes) :=
+Fixpoint expected_attr_t (a : attr) : list (bytes * bytes) :=
   match a with
   | AConst k v => [(map lower k, escape v)]
   | ADyn k s => [(map lower k, escape s)]
@@ -36,27 +37,103 @@ Definition expected_attr_t (a : attr) : list (bytes * bytes) :=
   | ABoolExpr k b => if b then [(map lower k, [])] else []
   | ASpread m => expected_attrs m
   | AStyle vs => [(bs "style", style_attr vs)]
+  | ACond c th el => flat_map expected_attr_t (if c then th else el)
   end.
 
-(* the author's tags; every other byte is character data; each dynamic string is one run of character tokens
-   holding its escaped form *)
+(* the author's tags, comments and doctype; every other byte is character data; each dynamic string is one run of
+   character tokens holding its escaped form; control flow contributes the tokens of the branch taken *)
 Fixpoint expected (t : tree) : list token :=
   match t with
   | TText v => chars v
   | TStr s => chars (escape s)
   | TElem n a ch => TStart (map lower n) (flat_map expected_attr_t a) false :: flat_map expected ch ++ [TEnd (map lower n)]
   | TVoid n a => [TStart (map lower n) (flat_map expected_attr_t a) false]
+  | TCmt d => [TComment d]
+  | TDoc d => [TDoctype (x20 :: d)]
+  | TRaw n a v => TStart (map lower n) (flat_map expected_attr_t a) false :: chars v ++ [TEnd (map lower n)]
+  | TScript a ps => TStart (bs "script") (flat_map expected_attr_t a) false :: chars (flat_map part_bytes ps) ++ [TEnd (bs "script")]
+  | TIf c th el => flat_map expected (if c then th else el)
+  | TFor its => flat_map (flat_map expected) its
+  | TSwitch i cs => pick (flat_map expected) [] i cs
+  | TCall body => flat_map expected body
+  | TChildren body => flat_map expected body
   end.
 
-Definition wf_attr (a : attr) : bool :=
+(* ---------- well-formedness: what the templ parser guarantees, and what is the author's responsibility ---------- *)
+Fixpoint wf_attr (a : attr) : bool :=
   match a with
   | AConst k _ | ADyn k _ | ABool k | ABoolExpr k _ => name_shaped k
   | ASpread m => forallb (fun kv => name_shaped (fst kv)) m
   | AStyle _ => true
+  | ACond c th el => forallb wf_attr (if c then th else el)
   end.
-Definition flat (t : tree) : bool := match t with TText v => no_lt v | TStr _ => true | _ => false end.
+
+(* comment bodies: not starting with > or -> and holding no --> or --!> (the templ parser ends a comment at the
+   first -->; the other three are the standard's conditions for the comment to end where the author ended it) *)
+Fixpoint no_cend (s : bytes) : bool :=
+  match s with
+  | [] => true
+  | _ :: r => negb (has_prefix (bs "-->") s) && negb (has_prefix (bs "--!>") s) && no_cend r
+  end.
+Definition comment_ok (d : bytes) : bool :=
+  negb (has_prefix [x3e] d) && negb (has_prefix [x2d; x3e] d) && no_cend d.
+
+(* static content of a raw element: the author's responsibility - it must not hold  </name  (in any letter case);
+   in a script it must not hold  <!  either, because after <!-- the standard reads a later </script> differently *)
+Fixpoint no_close (nm : bytes) (s : bytes) : bool :=
+  match s with
+  | [] => true
+  | _ :: r => negb (has_prefix (x3c :: x2f :: nm) (map lower s)) && no_close nm r
+  end.
+Fixpoint no_bang (s : bytes) : bool :=
+  match s with
+  | [] => true
+  | _ :: r => negb (has_prefix [x3c; x21] s) && no_bang r
+  end.
+Definition raw_static_ok (x : tx) (nm v : bytes) : bool :=
+  match x with
+  | XRawtext => no_close nm v
+  | XScript => no_close nm v && no_bang v
+  | _ => false
+  end.
+(* a static script part that is followed by a dynamic part must not end inside a partial  <  </  or  </letters
+   (the dynamic bytes would continue it): what is pending at its end *)
+Inductive pnd := P0 | PLt | PEndOpen | PName (buf : bytes).
+Definition adv (p : pnd) (b : byte) : pnd :=
+  if Byte.eqb b x3c then PLt
+  else match p with
+       | P0 => P0
+       | PLt => if Byte.eqb b x2f then PEndOpen else P0
+       | PEndOpen => if is_alpha b then PName [b] else P0
+       | PName buf => if is_alpha b then PName (buf ++ [b]) else P0
+       end.
+Definition settled (v : bytes) : bool := match fold_left adv v P0 with P0 => true | _ => false end.
+(* script parts: static parts as above; a dynamic part holds bytes that are clean or cool in the sense of C03
+   (spec/JsLex.v; proved of the JavaScript escaper and JSON encoder there) - in particular no < *)
+Fixpoint parts_ok (ps : list spart) : bool :=
+  match ps with
+  | [] => true
+  | PDyn d :: r => (JsLex.clean d || JsLex.cool d) && parts_ok r
+  | PStatic v :: r => raw_static_ok XScript (bs "script") v && (match r with [] => true | _ => settled v end) && parts_ok r
+  end.
+
+Definition no_gt (d : bytes) : bool := forallb (fun c => negb (Byte.eqb c x3e)) d.
+
+(* content of RCDATA / RAWTEXT / script parents written as ordinary elements: text and strings, possibly under
+   control flow and calls *)
+Fixpoint flat (t : tree) : bool :=
+  match t with
+  | TText v => no_lt v
+  | TStr _ => true
+  | TIf c th el => forallb flat (if c then th else el)
+  | TFor its => forallb (forallb flat) its
+  | TSwitch i cs => pick (forallb flat) true i cs
+  | TCall body | TChildren body => forallb flat body
+  | _ => false
+  end.
 (* static text holds no '<' (the templ parser ends a text node there); names are in the parser's classes;
-   RCDATA / RAWTEXT / script elements hold text and string expressions only; <plaintext> cannot be closed *)
+   RCDATA / RAWTEXT / script elements hold text and string expressions only; <plaintext> cannot be closed;
+   only the branch taken / the iterations run / the case chosen need to be well-formed *)
 Fixpoint wf (t : tree) : bool :=
   match t with
   | TText v => no_lt v
@@ -69,4 +146,12 @@ Fixpoint wf (t : tree) : bool :=
       | XPlaintext => false
       | _ => forallb flat ch
       end
+  | TCmt d => comment_ok d
+  | TDoc d => no_gt d
+  | TRaw n a v => elem_name n && forallb wf_attr a && raw_static_ok (text_kind (map lower n)) (map lower n) v
+  | TScript a ps => forallb wf_attr a && parts_ok ps
+  | TIf c th el => forallb wf (if c then th else el)
+  | TFor its => forallb (forallb wf) its
+  | TSwitch i cs => pick (forallb wf) true i cs
+  | TCall body | TChildren body => forallb wf body
   end.
